@@ -220,41 +220,9 @@ func checkC11(c *core.Ctx) error {
 	if err != nil {
 		return err
 	}
-	byID := map[string]*RunOut{}
-	for _, o := range outs {
-		byID[o.Sc.ID] = o
-	}
-	// group rejected lines by reason; the smallest failing scenario is the witness
-	type grp struct {
-		best *RunOut
-		n    int
-	}
-	groups := map[string]*grp{}
-	seenRun := map[string]bool{}
-	for _, b := range st.Bad {
-		o := byID[b.Run]
-		if o == nil {
-			return fmt.Errorf("validator reported unknown run %q", b.Run)
-		}
-		if seenRun[b.Run] {
-			continue // first rejected line of a run is the cause; later ones may be consequences
-		}
-		seenRun[b.Run] = true
-		g := groups[b.Why]
-		if g == nil {
-			g = &grp{}
-			groups[b.Why] = g
-		}
-		g.n++
-		if g.best == nil || scenarioSize(o.Sc) < scenarioSize(g.best.Sc) || (scenarioSize(o.Sc) == scenarioSize(g.best.Sc) && o.Sc.String() < g.best.Sc.String()) {
-			g.best = o
-		}
-	}
-	for why, g := range groups {
-		o := g.best
-		c.Report(fmt.Sprintf("%s :: %s", why, o.Sc.String()),
-			fmt.Sprintf("%d runs rejected for this reason; smallest: exit=%d stderr=%q", g.n, o.Exit, trim(o.Stderr, 300)),
-			map[string]interface{}{"scenario": o.Sc, "exit": o.Exit, "stderr": o.Stderr, "derived": o.Derived, "post": o.Post})
+	// every reason counts for C11's universe: the smallest failing scenario per reason is the witness
+	if err := reportBad(c, outs, st, nil); err != nil {
+		return err
 	}
 	// DRIFT: the implementation-shaped model's prediction vs the real run (never a verdict)
 	drift := 0
